@@ -303,6 +303,14 @@ def run_real(desc):
         for c in range(cols):
             cell = grid[r, c]
             grid_canon.append("n" if cell is None else [agent_canon(k, a) for k, a in cell.items()])
+    if (rows + cols + len(cells)) % 2 == 0:
+        # a history: the agents of the grid have been used elsewhere since they were placed (another simulation moved
+        # them): their run-time `position` says something else than the cell that holds them.  The builder reads the
+        # grid and the configured initial positions, not run-time state.
+        for r in range(rows):
+            for c in range(cols):
+                for a in (grid[r, c] or {}).values():
+                    a.position = np.array([rows - 1 - r, cols - 1 - c])
     try:
         out_g = sim_canon(Sim.build_sim_from_grid(grid, **kw()))
     except Exception as ex:  # noqa: BLE001
